@@ -375,14 +375,14 @@ def representation_obligations(rep, cfgs=('K0',)):
     return n_ctor
 
 
-def run(tier, replay=None):
-    rep = common.new_report('C10', tier, 'other')
+def mutator_obligations(rep, cfgs=('K0', 'K1'), with_getters=True):
+    """all obligations of C10 emitted into `rep` (shared with C04/C05/C09)"""
     roles = validators.load_roles()
     total_methods = 0
     n_effect = 0
     n_ctor = 0
     nerr_paths = 0
-    for cfg in ('K0', 'K1'):
+    for cfg in cfgs:
         prog = common.program(cfg)
         allinv = mu.invariant_fields(prog.facts)
         if cfg == 'K0':
@@ -413,12 +413,18 @@ def run(tier, replay=None):
             for fn, ty in mu.constructors(prog):
                 n_ctor += mu.check_constructor(prog, fn, ty, allinv, rep, EXEMPT_CTORS)
             raw_ctor_callers(prog, rep, allinv)
-            ng = getters(prog, rep, roles)
-            rep.floor('validating getters', ng, 4)
+            if with_getters:
+                ng = getters(prog, rep, roles)
+                rep.floor('validating getters', ng, 4)
     rep.floor('&mut self methods of the value types (K0)', total_methods, 16)
     rep.floor('mutators with an effect specification', n_effect, 14)
     rep.floor('constructors analysed', n_ctor, 5)
     rep.count('error-returning paths checked for atomicity', nerr_paths)
+
+
+def run(tier, replay=None):
+    rep = common.new_report('C10', tier, 'other')
+    mutator_obligations(rep)
     rep.explanation = ('Structural necessary conditions of the model equivalence, decided on every path of every mutator, constructor and validating getter: '
                        'typestate (sorted / duplicate-free / single empty representation) of the invariant fields at every exit, no write to self before an Err return, '
                        'every inserted key/value/attribute/tag is the argument validated against the exact production and normalised as the parser does (shape domain), '
